@@ -10,6 +10,7 @@ import SwV.Model.C18
 import SwV.Gen.C18
 import SwV.Spec.C18
 import SwV.Lemmas.C18
+import SwV.Lemmas.C18Rename
 
 namespace SwV.Props.C18
 open SwV.Model.C18 SwV.Spec.C18 SwV.Lemmas.C18
@@ -350,6 +351,86 @@ theorem rename_file_moves (s : St) (inv : TreeInv s) (src : RPath) (n : String) 
 example : ∃ (s : St) (a : Entry), TreeInv s ∧ (["a"], a) ∈ s.ents ∧ a.isDir = false ∧ a.hl = 0 ∧ find s ["b"] = none :=
   ⟨run {} [.create ["a"] { isDir := false, tag := 1, chunks := [1], hl := 0, cnt := 0 } false],
    { isDir := false, tag := 1, chunks := [1], hl := 0, cnt := 0 }, tree_inv _ (by simp [OpOk]), by decide, rfl, rfl, by decide⟩
+
+/-! ### rename of a DIRECTORY moves the whole subtree
+
+FULL-STRENGTH statement (property text): "a rename moves the whole subtree without loss or duplication", for every
+source and target. It is FALSE when the target lies inside the source (`rename_into_own_subtree_diverges_witness`) or
+is an ancestor of the source (`rename_onto_ancestor_loses_witness`) — the two recorded findings. Outside these two
+classes, for a fresh target whose directory exists, it holds for EVERY store and EVERY subtree: -/
+
+/-- the fuel of the model's recursion is sufficient: with ANY fuel exceeding the height of the source subtree, moveEntry of
+    a stored entry (file or directory, with arbitrarily many descendants) to a fresh path that is neither inside nor above
+    the source finishes with `ok`, hands nothing to a deletion sink, keeps the invariant (so no path is duplicated) and
+    yields exactly the subtree move: every entry under `old` re-rooted under `new`, everything else untouched -/
+theorem rename_fuel_sufficient (f : Nat) (s : St) (inv : TreeInv s) (old new : RPath) (e : Entry)
+    (hm : (old, e) ∈ s.ents) (hfresh : ∀ c, (new, c) ∉ s.ents) (hnn : new ≠ [])
+    (hpar : new.tail = [] ∨ ∃ d, (new.tail, d) ∈ s.ents ∧ d.isDir = true)
+    (h1 : ¬ old <:+ new) (h2 : ¬ new <:+ old)
+    (hfuel : ∀ x ∈ s.ents, old <:+ x.1 → x.1.length < old.length + f) :
+    ∃ s', moveEntry f s old e new = (s', .ok, []) ∧ TreeInv s' ∧
+      ∀ x, x ∈ s'.ents ↔ x ∈ specRenameStrip s.ents old new := by
+  rcases moveEntry_exact f s old e new inv hm hfresh hnn hpar h1 h2 hfuel with ⟨s', hr, inv', mv⟩
+  exact ⟨s', hr, inv', fun x => (mv x).trans mem_specRenameStrip.symm⟩
+
+/-- PARTIAL (hypotheses = the target is fresh with an existing directory, and is neither inside the source nor an ancestor
+    of it — the two recorded findings rename/into-own-subtree-not-refused and rename/onto-ancestor-loses-entries; the
+    subtree is less than `renameFuel` = 64 levels high, the model's recursion bound): AtomicRenameEntry of a directory
+    with any number of descendants succeeds and the resulting store is the spec's subtree move of the old one: every
+    path under `src` re-rooted under `dst` (none lost), nothing else changed, no path twice (`TreeInv`), no chunk handed
+    to a deletion sink. Moved entries carry no link identity (`strip`: moveSelfEntry clears HardLinkId) -/
+theorem rename_dir_moves_subtree_partial (s : St) (inv : TreeInv s) (src dst : RPath) (e : Entry)
+    (h : find s src = some e) (hdir : e.isDir = true)
+    (hfresh : find s dst = none) (hnn : dst ≠ [])
+    (hpar : dst.tail = [] ∨ ∃ d, find s dst.tail = some d ∧ d.isDir = true)
+    (h1 : ¬ src <:+ dst) (h2 : ¬ dst <:+ src)
+    (hdepth : ∀ x ∈ s.ents, src <:+ x.1 → x.1.length < src.length + renameFuel) :
+    ∃ s', renameEntry s src dst = (s', .ok, []) ∧ TreeInv s' ∧
+      ∀ x, x ∈ s'.ents ↔ x ∈ specRenameStrip s.ents src dst := by
+  rcases find_stored inv h with ⟨e0, hm, hk⟩
+  have he : find s src = some e0 := find_dir_of_mem inv hm (by rw [hk, hdir])
+  rw [h] at he
+  cases he
+  have hpar' : dst.tail = [] ∨ ∃ d, (dst.tail, d) ∈ s.ents ∧ d.isDir = true := by
+    rcases hpar with h0 | ⟨d, hd, hdd⟩
+    · exact Or.inl h0
+    · rcases find_stored inv hd with ⟨d0, hd0, hk0⟩
+      exact Or.inr ⟨d0, hd0, by rw [hk0, hdd]⟩
+  unfold renameEntry
+  simp only [h]
+  exact rename_fuel_sufficient renameFuel s inv src dst e hm (find_none inv hfresh) hnn hpar' h1 h2 hdepth
+
+/-- … and when the subtree holds no linked name this is literally the judge's `specRename` -/
+theorem rename_dir_is_specRename_partial (s : St) (inv : TreeInv s) (src dst : RPath) (e : Entry)
+    (h : find s src = some e) (hdir : e.isDir = true)
+    (hfresh : find s dst = none) (hnn : dst ≠ [])
+    (hpar : dst.tail = [] ∨ ∃ d, find s dst.tail = some d ∧ d.isDir = true)
+    (h1 : ¬ src <:+ dst) (h2 : ¬ dst <:+ src)
+    (hdepth : ∀ x ∈ s.ents, src <:+ x.1 → x.1.length < src.length + renameFuel)
+    (hplain : ∀ x ∈ s.ents, src <:+ x.1 → x.2.hl = 0 ∧ x.2.cnt = 0) :
+    ∃ s', renameEntry s src dst = (s', .ok, []) ∧ TreeInv s' ∧
+      ∀ x, x ∈ s'.ents ↔ x ∈ specRename s.ents src dst := by
+  rcases rename_dir_moves_subtree_partial s inv src dst e h hdir hfresh hnn hpar h1 h2 hdepth with ⟨s', hr, inv', hx⟩
+  exact ⟨s', hr, inv', fun x => by rw [hx x, specRenameStrip_eq_specRename hplain]⟩
+
+/-- the moved subtree keeps its size: no entry lost, none duplicated (paths of `s'` are pairwise distinct by `TreeInv`,
+    and the spec's move is a `map` of the old store) -/
+theorem specRenameStrip_length (l : List (RPath × Entry)) (src dst : RPath) : (specRenameStrip l src dst).length = l.length := by
+  simp [specRenameStrip]
+
+def subtreeWitness : St := run {} [
+  .create ["b", "a"] { isDir := false, tag := 1, chunks := [1], hl := 0, cnt := 0 } false,
+  .create ["e", "d", "c", "a"] { isDir := false, tag := 2, chunks := [2, 3], hl := 0, cnt := 0 } false,
+  .create ["x"] { isDir := false, tag := 3, chunks := [4], hl := 0, cnt := 0 } false]
+
+/-- non-vacuity: /a with /a/b, /a/c, /a/c/d, /a/c/d/e (and an unrelated /x) renamed to /z: every hypothesis holds -/
+example : TreeInv subtreeWitness ∧ find subtreeWitness ["a"] = some { isDir := true, tag := 1, chunks := [], hl := 0, cnt := 0 }
+    ∧ find subtreeWitness ["z"] = none ∧ ¬ ["a"] <:+ ["z"] ∧ ¬ ["z"] <:+ ["a"]
+    ∧ (∀ x ∈ subtreeWitness.ents, ["a"] <:+ x.1 → x.1.length < 1 + renameFuel)
+    ∧ (∀ x ∈ subtreeWitness.ents, ["a"] <:+ x.1 → x.2.hl = 0 ∧ x.2.cnt = 0)
+    ∧ (renameEntry subtreeWitness ["a"] ["z"]).2.1 = Res.ok
+    ∧ ((renameEntry subtreeWitness ["a"] ["z"]).1.ents.map (·.1)).length = 6 :=
+  ⟨tree_inv _ (by simp [OpOk]), by decide, by decide, by decide, by decide, by decide, by decide, by decide, by decide⟩
 
 /-! ### frame: what the operations cannot touch (for ALL states, flags and outcomes) -/
 
